@@ -287,6 +287,28 @@ func runCase(c Case) (string, stats) {
 			}
 		}
 	}
+	// deadRoutes reads the cache's own dump: routes whose session is not in the cache any more
+	deadRoutes := func() []string {
+		dump := cache.DebugDump()
+		listed := map[string]bool{}
+		inMap := false
+		var dead []string
+		for _, ln := range strings.Split(dump, "\n") {
+			switch {
+			case strings.HasPrefix(ln, "command_map:"):
+				inMap = true
+			case !inMap && strings.HasPrefix(ln, "- id="):
+				if f := strings.Fields(strings.TrimPrefix(ln, "- id=")); len(f) > 0 {
+					listed[f[0]] = true
+				}
+			case inMap && strings.Contains(ln, " -> "):
+				if sid := strings.TrimSpace(ln[strings.LastIndex(ln, " -> ")+4:]); !listed[sid] {
+					dead = append(dead, strings.TrimSpace(ln))
+				}
+			}
+		}
+		return dead
+	}
 	var prevFullKey *routeKey
 	sharedCfg := kit.BaseConfig(security.SecurityRequired, security.SecurityOptional, security.AuthClaimToBe)
 	sharedCfg.SessionCache = cache
@@ -340,6 +362,11 @@ func runCase(c Case) (string, stats) {
 				if op.V%2 == 0 {
 					cache.InvalidateExpired()
 				}
+				if op.V%4 == 3 {
+					// noticed by a lookup by id (what a handshake naming the session explicitly, or a server's
+					// resumption lookup, does): the entry goes now, a later sweep has to collect its routes
+					_, _ = cache.LookupNonExpired(pick)
+				}
 			} else {
 				cache.Invalidate(pick)
 			}
@@ -351,6 +378,11 @@ func runCase(c Case) (string, stats) {
 			}
 		case "sweep":
 			cache.InvalidateExpired()
+			// a sweep leaves no route behind whose session is gone - however the session went (swept now, dropped
+			// by an earlier lookup that found it expired, invalidated)
+			if d := deadRoutes(); len(d) > 0 {
+				return fail("after a sweep the command map still holds %d route(s) to sessions that are no longer in the cache: %v", len(d), d)
+			}
 		case "mint":
 			// a session pre-registered by the application for outbound use (a startd's claim session towards
 			// its schedd): filed under (tag, address, command) like any other
@@ -643,6 +675,11 @@ func TestC07Directed(t *testing.T) {
 			}
 			cases = append(cases, Case{Ops: []Op{hs(tg, 0, 0, api), {K: "expire", V: 1}, hs(tg, 0, 0, api), hs(tg, 0, 1, api)}})
 			cases = append(cases, Case{Ops: []Op{hs(tg, 0, 0, api), {K: "expire", V: 0}, hs(tg, 0, 1, api)}})
+			// expired lazily, noticed by the next handshake's lookup (which drops the entry), THEN swept
+			cases = append(cases, Case{Ops: []Op{hs(tg, 0, 0, api), {K: "expire", V: 1}, hs(tg, 0, 0, api), {K: "sweep"}, hs(tg, 0, 1, api)}})
+			cases = append(cases, Case{Ops: []Op{{K: "policy", Srv: 0, V: 15}, hs(tg, 0, 0, api), {K: "expire", V: 1}, hs(tg, 0, 2, api), {K: "sweep"}, {K: "invalidate"}, {K: "sweep"}}})
+			cases = append(cases, Case{Ops: []Op{hs(tg, 0, 0, api), {K: "expire", V: 3}, {K: "sweep"}, hs(tg, 0, 1, api)}})
+			cases = append(cases, Case{Ops: []Op{hs(tg, 0, 0, api), hs(tg, 1, 0, api), {K: "expire", V: 3}, {K: "sweep"}, {K: "expire", V: 3}, {K: "sweep"}, hs(tg, 0, 1, api)}})
 			cases = append(cases, Case{Ops: []Op{hs(tg, 0, 0, api), {K: "invalidate"}, hs(tg, 0, 0, api), hs(tg, 0, 1, api)}})
 			for other := 0; other < 3; other++ { // a minted session under tg; handshakes under every tag, another server, another command
 				cases = append(cases, Case{Ops: []Op{{K: "mint", Tag: tg, Srv: 0, Cmd: 0, API: api}, hs(other, 0, 0, api), hs(other, 1, 0, api), hs(other, 0, 1, api), hs(tg, 0, 0, api)}})
